@@ -989,6 +989,9 @@ def call_method(I, e, base, attr, args, kws):
     kind = base.tag("kind")
     heap = I.ctx.trace.heap
     # --- python containers
+    if base.tag("module_const") and attr in ("append", "extend", "insert", "update", "pop", "clear", "setdefault", "add",
+                                              "remove", "sort", "popitem"):
+        I.emit("global_mutation", e, name=base.tag("module_const"), how="." + attr)
     if kind == "list" and attr in ("append", "extend", "insert"):
         new = args[-1] if args else Val()
         items = [new] if attr != "extend" else (new.items if new.items is not None else [I.iter_elem(new, None)])
